@@ -219,6 +219,12 @@ KINDS = ["valid", "valid", "valid", "pushdata", "nonjumpdest", "oob", "oob-far",
          "computed-bad", "zero", "truncated-tail", "last-byte", "pc-relative", "codesize-relative"]
 
 
+NOISE_OPS = sorted((n, pops, pushes) for (n, pops, pushes) in evm.OPS.values()
+                   if n not in ("JUMP", "JUMPI", "STOP", "RETURN", "REVERT", "INVALID", "SELFDESTRUCT", "JUMPDEST", "SSTORE",
+                                "SLOAD", "PC")
+                   and not n.startswith(("PUSH", "DUP", "SWAP")))
+
+
 def controlflow(rng, underflow_p=0.0, symbolic_p=0.0, big_stack_p=0.0, far_p=0.02):
     # a few programs live behind 64 KiB of padding: every jump target then needs three bytes
     far = rng.random() < far_p
@@ -327,6 +333,16 @@ def controlflow(rng, underflow_p=0.0, symbolic_p=0.0, big_stack_p=0.0, far_p=0.0
             canaries.append(slot)
         for _ in range(rng.randint(0, 3)):
             a.emit(rng.choice([0, 1, 7, 0xff]), "POP")
+        if rng.random() < 0.5:
+            # one instruction of any kind that does not touch control flow, with its operands supplied and its results
+            # dropped: execution must simply carry on behind it
+            nm, pops, pushes = rng.choice(NOISE_OPS)
+            for _ in range(pops):
+                a.emit(rng.choice([0, 1, 32, 64]))
+            a.emit(nm)
+            for _ in range(pushes):
+                a.emit("POP")
+            feats.add("noise:" + nm)
         if rng.random() < underflow_p:
             # an instruction that needs more operands than the (empty) stack holds
             a.emit(rng.choice(["ADD", "POP", "DUP1", "SWAP1", "MSTORE", "SSTORE", "ISZERO", "JUMP", "JUMPI", "DUP16",
